@@ -17,6 +17,7 @@ from ..core import rule
 from ..srcmodel import AnalysisError, walk_no_nested, attr_chain, unparse, norm_stmt
 from ..paths import enumerate_paths
 from .. import terms as T
+from .. import siblings as SB
 from .. import ordabs
 from .common import *
 from . import decorate as D
@@ -208,20 +209,24 @@ def step_redecorates(ctx):
     """_bootstrap_objective returns the stored objective only while _live; Step, Solve and every _Step call it before the first evaluation"""
     f = ctx.func(AS + '._bootstrap_objective')
     sn = selfname_of(f)
-    rets = [n for n in walk_no_nested(f.node) if isinstance(n, ast.Return)]
-    ctx.need(len(rets) >= 2, '_bootstrap_objective: expected an early and a final return')
-    early = [r for r in rets if guards_of(r, stop=f.node)]
-    final = [r for r in rets if not guards_of(r, stop=f.node)]
-    ctx.need(early and final, '_bootstrap_objective: returns not recognised')
-    for r in early:
-        g = guards_of(r, stop=f.node)[0]
-        tt = t(g[0])
-        conj = tt[1:] if tt[0] == 'and' else (tt,)
-        ctx.check(g[1] is True and ('attr', ('name', sn), '_live') in conj, 'AbstractSolver._bootstrap_objective#early',
-                  'the stored objective is reused only if self._live', 'the stored objective is returned without requiring self._live', f, r)
-    fr = final[-1]
-    ctx.check(isinstance(fr.value, ast.Call) and self_call(fr.value, '_decorate_objective', sn), 'AbstractSolver._bootstrap_objective#final',
-              'otherwise the objective is re-decorated', 'the fall-through no longer returns self._decorate_objective(...)', f, fr)
+    # per return path (locals substituted): either the stored objective self._cost[0], and then the path has established
+    # self._live, or a fresh self._decorate_objective(...)
+    rts = return_terms(f.node)
+    ctx.need(len(rts) >= 2, '_bootstrap_objective: expected a path that reuses and a path that re-decorates')
+    ctx.stats['paths_enumerated'] += len(rts)
+    live = ('attr', ('name', sn), '_live')
+    n_reuse = n_new = 0
+    for p, term, b, conds in rts:
+        is_new = term[0] == 'call' and term[1] == ('attr', ('name', sn), '_decorate_objective')
+        if is_new:
+            n_new += 1
+            continue
+        n_reuse += 1
+        knows_live = any(tr and (c == live or (c[0] == 'and' and live in c[1:])) for c, tr, _ in conds)
+        ctx.check(knows_live, 'AbstractSolver._bootstrap_objective#early', 'the stored objective is reused only if self._live',
+                  'the stored objective (%s) is returned on a path that has not established self._live: %s' % (T.show(term)[:50], p.describe(5)), f, p.exit_node)
+    ctx.check(n_new >= 1, 'AbstractSolver._bootstrap_objective#final', 'otherwise the objective is re-decorated',
+              'no path of _bootstrap_objective returns a fresh self._decorate_objective(...)', f, f.node)
     base = ctx.cls(AS)
     for name in ('Step', 'Solve'):
         m = ctx.func(AS + '.' + name)
@@ -246,7 +251,7 @@ def step_redecorates(ctx):
                   'an evaluation in _Step can use an objective that was not re-bootstrapped', m, boots[0] if boots else evals[0])
 
 
-@rule('C02.e', min_instances=7)
+@rule('C02.e', min_instances=6)
 def members_clipped_on_decoration(ctx):
     """under strict ranges every member is clipped when the objective is (re)decorated; the clip helpers use (min,max) in order"""
     for key in ('base', 'DE', 'DE2'):
@@ -284,95 +289,28 @@ def members_clipped_on_decoration(ctx):
            and ''.join(unparse(s.targets[0]).split()) == '%s.population[0]' % sn]
     ctx.check(bool(reb) and bool(clp), 'NelderMeadSimplexSolver._decorate_objective#clip', 'simplex rebuilt inside the box (generations>0) or vertex 0 clipped',
               'Nelder-Mead no longer pulls its simplex/initial vertex into the box on decoration', f, inner[0])
-    # helper: _clipGuessWithinRangeBoundary
-    g = ctx.func(AS + '._clipGuessWithinRangeBoundary')
-    sn = selfname_of(g)
-    b = T.Builder()
-    S = ('name', sn)
-    bounds_ok = clip_ok = ret_ok = rnd_ok = False
-    x0 = g.args()[1]
-    for st in g.node.body:
-        if isinstance(st, ast.Assign) and isinstance(st.targets[0], ast.Name):
-            v = T.simp(b.t(st.value))
-            if st.targets[0].id == 'bounds':
-                bounds_ok = v == ('tuple', ('attr', S, '_strictMin'), ('attr', S, '_strictMax'))
-            if v[0] == 'call' and T.show(v[1]).endswith('.clip'):
-                clip_ok = v[2] == (('star', ('tuple', ('attr', S, '_strictMin'), ('attr', S, '_strictMax'))),) or \
-                    v[2] == (('attr', S, '_strictMin'), ('attr', S, '_strictMax'))
-                clipped_name = st.targets[0].id
-            b.exec_stmt(st) if st.targets[0].id != x0 else None
-        if isinstance(st, ast.If) and isinstance(st.test, ast.Name) and st.test.id == 'at':
-            r = [s for s in st.body if isinstance(s, ast.Return)]
-            ret_ok = bool(r) and isinstance(r[0].value, ast.Name) and clip_ok and r[0].value.id == clipped_name
-    ctx.check(bounds_ok or clip_ok, '_clipGuessWithinRangeBoundary#bounds', 'clips with (_strictMin, _strictMax) in that order',
-              'the clip helper no longer clips with (_strictMin, _strictMax)', g, g.node)
-    ctx.check(clip_ok and ret_ok, '_clipGuessWithinRangeBoundary#at', 'at=True returns the clipped array',
-              'with at=True the helper does not return the clipped array', g, g.node)
-    rnd = [s for s in g.node.body if isinstance(s, ast.Assign) and isinstance(s.targets[0], ast.Subscript) and 'uniform' in unparse(s.value)]
-    if rnd:
-        v = ''.join(unparse(rnd[0].value).split())
-        tg = ''.join(unparse(rnd[0].targets[0]).split())
-        ctx.check(v == 'random.uniform(%s._strictMin,%s._strictMax)[x_]' % (sn, sn) and tg == '%s[x_]' % x0, '_clipGuessWithinRangeBoundary#random',
-                  'out-of-box coordinates are redrawn uniformly inside (min,max)', 'the random branch redraws %s = %s' % (tg, v), g, rnd[0])
-    # helper: _setSimplexWithinRangeBoundary crops val<lo -> lo, val>hi -> hi
-    h = ctx.func('mystic.scipy_optimize:NelderMeadSimplexSolver._setSimplexWithinRangeBoundary')
-    sn = selfname_of(h)
-    lo = [s for s in h.node.body if isinstance(s, ast.Assign) and isinstance(s.targets[0], ast.Name) and s.targets[0].id == 'lo']
-    hi = [s for s in h.node.body if isinstance(s, ast.Assign) and isinstance(s.targets[0], ast.Name) and s.targets[0].id == 'hi']
-    ctx.need(lo and hi, 'simplex helper: lo/hi not found')
-    ctx.check(is_self_attr(lo[0].value, '_strictMin', sn) and is_self_attr(hi[0].value, '_strictMax', sn), '_setSimplexWithinRangeBoundary#lohi',
-              'lo = _strictMin, hi = _strictMax', 'lo/hi are bound to %s / %s' % (unparse(lo[0].value), unparse(hi[0].value)), h, lo[0])
-    crops = [s for s in h.node.body if isinstance(s, ast.Assign) and isinstance(s.targets[0], ast.Subscript)
-             and isinstance(s.targets[0].value, ast.Name) and s.targets[0].value.id == 'val' and isinstance(s.targets[0].slice, ast.Compare)]
-    seen = set()
-    for s in crops:
-        m = t(s.targets[0].slice)
-        v = t(s.value)
-        if m == T.mk_cmp('<', ('name', 'val'), ('name', 'lo')):
-            seen.add('lo')
-            ctx.check(v == ('sub', ('name', 'lo'), m), '_setSimplexWithinRangeBoundary#crop-lo', 'val<lo -> lo', 'val<lo is replaced by %s' % T.show(v), h, s)
-        elif m == T.mk_cmp('>', ('name', 'val'), ('name', 'hi')):
-            seen.add('hi')
-            ctx.check(v == ('sub', ('name', 'hi'), m), '_setSimplexWithinRangeBoundary#crop-hi', 'val>hi -> hi', 'val>hi is replaced by %s' % T.show(v), h, s)
-    ctx.check(seen == {'lo', 'hi'}, '_setSimplexWithinRangeBoundary#crop', 'both ends cropped', 'the simplex is no longer cropped at both ends (%s)' % sorted(seen), h, h.node)
+    # helpers (behavioural summaries against reference transcriptions: renamed locals, temporaries and regrouping are absorbed)
+    from .c02_refs import REFS
+    for a, what in ((AS + '._clipGuessWithinRangeBoundary', 'clip(x0, _strictMin, _strictMax); at=False redraws the out-of-box coordinates uniformly inside (min, max)'),
+                    ('mystic.scipy_optimize:NelderMeadSimplexSolver._setSimplexWithinRangeBoundary', 'simplex built around x0 and cropped: val<lo -> lo, val>hi -> hi with lo=_strictMin, hi=_strictMax')):
+        g = ctx.func(a)
+        got = SB.summary(g.node, strict_casts=True)
+        want = SB.summary_of_source(REFS[a], strict_casts=True)
+        ctx.stats['terms_compared'] += len(got)
+        ctx.check(got == want, g.qualname.split('.')[-1], what, '%s differs from its confirmed behaviour: %s' % (g.qualname, SB.diff(got, want)), g, g.node)
 
 
-@rule('C02.f', min_instances=3)
+@rule('C02.f', min_instances=2)
 def random_points_inside_limits(ctx):
-    """SetRandomInitialPoints draws population[i][j] = uniform(min[j], max[j]); SetInitialPoints brackets x0 and then pins member 0"""
-    f = ctx.func(AS + '.SetRandomInitialPoints')
-    sn = selfname_of(f)
-    st = [s for s in stmts_of(f.node) if isinstance(s, ast.Assign) and 'uniform' in unparse(s.value)]
-    ctx.need(st, 'no uniform draw in SetRandomInitialPoints')
-    s = st[0]
-    tg = t(s.targets[0])
-    v = t(s.value)
-    good = tg[0] == 'sub' and tg[1][0] == 'sub' and tg[1][1] == ('attr', ('name', sn), 'population') and v[0] == 'call' and len(v[2]) == 2 and \
-        v[2][0] == ('sub', ('name', 'min'), tg[2]) and v[2][1] == ('sub', ('name', 'max'), tg[2])
-    ctx.check(good, 'SetRandomInitialPoints#draw', 'population[i][j] = uniform(min[j], max[j])', 'initial points are drawn as %s = %s' % (T.show(tg), T.show(v)), f, s)
-    loops = [n for n in walk_no_nested(f.node) if isinstance(n, ast.For) and s in list(walk_no_nested(n))]
-    its = sorted(''.join(unparse(l.iter).split()) for l in loops)
-    ctx.check(its == sorted(['range(len(%s.population))' % sn, 'range(%s.nDim)' % sn]), 'SetRandomInitialPoints#loops', 'all members x all dimensions',
-              'the draw loops over %s' % its, f, loops[0] if loops else s)
-    g = ctx.func(AS + '.SetInitialPoints')
-    sn = selfname_of(g)
-    b = T.Builder()
-    call = pin = None
-    for s in g.node.body:
-        if isinstance(s, ast.Assign) and isinstance(s.targets[0], ast.Name) and s.targets[0].id in ('min', 'max'):
-            b.exec_stmt(s)
-        if isinstance(s, ast.Expr) and isinstance(s.value, ast.Call) and self_call(s.value, 'SetRandomInitialPoints', sn):
-            call = (s, [T.simp(b.t(a)) for a in s.value.args])
-        if isinstance(s, ast.Assign) and ''.join(unparse(s.targets[0]).split()) in ('%s.population[0][:]' % sn, '%s.population[0]' % sn):
-            pin = s
-    ctx.need(call is not None, 'SetInitialPoints no longer calls SetRandomInitialPoints')
-    x0, rad = ('name', 'x0'), ('name', 'radius')
-    lo = T.simp(T.pmul(x0, T.padd(T.num(1), T.pneg(rad))))
-    hi = T.simp(T.pmul(x0, T.padd(T.num(1), rad)))
-    ctx.stats['terms_compared'] += 2
-    good = call[1] == [lo, hi] and pin is not None and pin.lineno > call[0].lineno and 'x0' in unparse(pin.value)
-    ctx.check(good, 'SetInitialPoints', 'brackets x0*(1-r), x0*(1+r) then pins member 0 to x0',
-              'SetInitialPoints draws within %s and pins %s' % ([T.show(a) for a in call[1]], norm_stmt(pin) if pin else None), g, call[0])
+    """SetRandomInitialPoints draws population[i][j] = uniform(min[j], max[j]) for every member and dimension (None -> defaults); SetInitialPoints brackets x0*(1-r), x0*(1+r) (zeros -> -/+radius), draws inside and then pins member 0 to x0"""
+    from .c02_refs import REFS
+    for a, what in ((AS + '.SetRandomInitialPoints', 'population[i][j] = uniform(min[j], max[j]), all members x all dimensions'),
+                    (AS + '.SetInitialPoints', 'brackets x0*(1-r), x0*(1+r), draws inside, pins member 0 to x0')):
+        g = ctx.func(a)
+        got = SB.summary(g.node, strict_casts=True)
+        want = SB.summary_of_source(REFS[a], strict_casts=True)
+        ctx.stats['terms_compared'] += len(got)
+        ctx.check(got == want, g.qualname.split('.')[-1], what, '%s differs from its confirmed behaviour: %s' % (g.qualname, SB.diff(got, want)), g, g.node)
 
 
 @rule('C02.g', min_instances=9)
@@ -380,53 +318,107 @@ def bounds_as_constraint(ctx):
     """SetStrictRanges stores (True, min, max) uncrossed and rejects min>max; (tight,clip) table; _boundsconstraints/boundsconstrain pass (min,max) in order; every _Step couples and_(constraints, bounds, onfail=bounds)"""
     f = ctx.func(AS + '.SetStrictRanges')
     sn = selfname_of(f)
-    top = f.node.body
-    stores = {}
-    for s in top:
-        if isinstance(s, ast.Assign) and is_self_attr(s.targets[0], None, sn):
-            stores[s.targets[0].attr] = s
-    ctx.need({'_useStrictRange', '_strictMin', '_strictMax', '_strictbounds'} <= set(stores), 'SetStrictRanges: success-path stores not found')
-    ctx.check(const_value(stores['_useStrictRange'].value) is True and unparse(stores['_strictMin'].value) == 'min' and unparse(stores['_strictMax'].value) == 'max',
-              'SetStrictRanges#stores', '_useStrictRange=True, _strictMin=min, _strictMax=max',
-              'the success path stores %s' % {k: unparse(v.value) for k, v in stores.items()}, f, stores['_strictMin'])
-    rej = [s for s in top if isinstance(s, ast.If) and any(isinstance(x, ast.Raise) for x in s.body) and 'min' in unparse(s.test) and 'max' in unparse(s.test) and 'len' not in unparse(s.test)]
-    ok_rej = False
-    if rej:
-        tt = t(rej[0].test)
-        ok_rej = any(isinstance(s_, tuple) and s_ and s_[0] == 'cmp' and s_ == T.mk_cmp('>', ('name', 'min'), ('name', 'max')) for s_ in T.subterms(tt)) \
-            and rej[0].lineno < stores['_strictMin'].lineno
-    ctx.check(ok_rej, 'SetStrictRanges#reject', 'min > max is rejected before the stores', 'a box with min > max is no longer rejected before being stored', f, rej[0] if rej else f.node)
-    # decision table (tight, clip)
-    chain = [s for s in top if isinstance(s, ast.If) and ''.join(unparse(s.test).split()) == 'clipisNone']
-    ctx.need(chain, 'SetStrictRanges: (tight, clip) table not found')
-    c0 = chain[0]
-    a0 = c0.body[0] if c0.body and isinstance(c0.body[0], ast.Assign) else None
-    row1 = a0 is not None and ''.join(unparse(a0.value).split()) == 'dict(symbolic=True)iftightelsedict()'
-    c1 = c0.orelse[0] if len(c0.orelse) == 1 and isinstance(c0.orelse[0], ast.If) else None
-    row2 = c1 is not None and "repr(tight)=='False'" == ''.join(unparse(c1.test).split()) and any(isinstance(x, ast.Raise) for x in c1.body)
-    a2 = c1.orelse[0] if c1 is not None and c1.orelse and isinstance(c1.orelse[0], ast.Assign) else None
-    row3 = a2 is not None and ''.join(unparse(a2.value).split()) == 'dict(symbolic=False,clip=clip)'
-    ctx.check(row1 and row2 and row3, 'SetStrictRanges#table', 'clip=None: symbolic iff tight; clip given & tight False: ValueError; else symbolic=False, clip=clip',
-              '(tight, clip) table changed: rows %s' % [row1, row2, row3], f, c0)
+    S = ('name', sn)
+    pmin, pmax = f.args()[1], f.args()[2]
+    bcalls = calls_where(f.node, lambda c: self_call(c, '_boundsconstraints', sn), include_lambda=False)
+    ctx.need(bcalls, 'SetStrictRanges no longer builds the bounds constraint with self._boundsconstraints')
+
+    def rel(n):
+        if isinstance(n, (ast.Return, ast.Raise)):
+            return True
+        if isinstance(n, (ast.Assign, ast.AugAssign)):
+            return True
+        return False
+    paths = [p for p in enumerate_paths(f.node, relevant=rel, unroll=(0, 1)) if p.exit != 'raise']
+    ctx.stats['paths_enumerated'] += len(paths)
+    n_on = n_tab = 0
+    # the two keyword settings stay symbolic (their extraction from kwds is not what the table is about)
+    role = {}
+    kwp = f.node.args.kwarg.arg if f.node.args.kwarg else 'kwds'
+    for s_ in f.node.body:
+        if isinstance(s_, ast.Assign) and len(s_.targets) == 1 and isinstance(s_.targets[0], ast.Name):
+            for key in ('tight', 'clip'):
+                if t(s_.value) == T.term(ast.parse("%s[%r] if %r in %s else None" % (kwp, key, key, kwp), mode='eval').body) or \
+                        t(s_.value) == T.term(ast.parse("%s.get(%r)" % (kwp, key), mode='eval').body) or \
+                        t(s_.value) == T.term(ast.parse("%s.get(%r, None)" % (kwp, key), mode='eval').body):
+                    role[key] = (s_.targets[0].id, s_)
+    ctx.need(sorted(role) == ['clip', 'tight'], 'SetStrictRanges: tight / clip are no longer read from the keywords')
+    tname, cname = role['tight'][0], role['clip'][0]
+    kwstmts = [role['tight'][1], role['clip'][1]]
+    clipnone = ('cmp', 'is', ('name', cname), ('const', None))
+    for p in paths:
+        b, conds = symbolic_run(_Prefix([e for e in p.events if not (e[0] == 'stmt' and e[1] in kwstmts)]))
+        lits = [(c, tr) for c, tr, _ in conds]
+        # constant flags contradicting the branch: infeasible
+        if any(c[0] == 'const' and isinstance(c[1], bool) and c[1] != tr for c, tr in lits):
+            continue
+        use = b.env.get('%s._useStrictRange' % sn)
+        if use == ('const', True):
+            n_on += 1
+            smin, smax = T.simp(b.env.get('%s._strictMin' % sn, ('const', None))), T.simp(b.env.get('%s._strictMax' % sn, ('const', None)))
+            okmin = smin in (('name', pmin), ('attr', S, '_defaultMin'))
+            okmax = smax in (('name', pmax), ('attr', S, '_defaultMax'))
+            ctx.check(okmin and okmax, 'SetStrictRanges#stores', '_useStrictRange=True, _strictMin=min, _strictMax=max (defaults where None)',
+                      'a path that switches the ranges on stores _strictMin=%s, _strictMax=%s' % (T.show(smin)[:40], T.show(smax)[:40]), f, p.exit_node)
+            rejected = any(tr is False and any(x == ('cmp', '<', smax, smin) for x in T.subterms(c)) for c, tr in lits)
+            ctx.check(rejected, 'SetStrictRanges#reject', 'min > max is rejected before the stores', 'a box with min > max is no longer rejected before being stored: %s' % p.describe(6), f, p.exit_node)
+        # (tight, clip) decision table: what is handed to _boundsconstraints on this path
+        a = None
+        for e in p.events:
+            if e[0] == 'stmt':
+                for c_ in calls_where(e[1], lambda c: self_call(c, '_boundsconstraints', sn), include_lambda=False):
+                    kk = [k.value for k in c_.keywords if k.arg is None]
+                    if kk:
+                        a = T.simp(b.t(kk[0]))
+        if a is None:
+            continue
+        tight, clip = ('name', tname), ('name', cname)
+        for cl, leaf in T.cases(T.simp(a)):
+            n_tab += 1
+            know = dict(lits)
+            know.update(dict(cl))
+            cn = know.get(clipnone)
+            kw = dict(leaf[3]) if leaf[0] == 'call' and T.show(leaf[1]) == 'dict' else None
+            if cn is True:
+                tt = know.get(tight)
+                want = {'symbolic': ('const', True)} if tt is True else ({} if tt is False else None)
+            elif cn is False:
+                want = {'symbolic': ('const', False), 'clip': clip}
+            else:
+                want = None
+            ctx.check(kw is not None and want is not None and kw == want, 'SetStrictRanges#table',
+                      'clip=None: symbolic iff tight; clip given: symbolic=False, clip=clip',
+                      'the (tight, clip) table hands %s to _boundsconstraints under %s' % (T.show(leaf)[:60], [(T.show(c)[:40], tr) for c, tr in list(cl)[:3]]), f, bcalls[0])
+    ctx.need(n_on >= 1 and n_tab >= 3, 'SetStrictRanges: success path / decision table not recognised (%d / %d)' % (n_on, n_tab))
+    # clip given while tight is False is refused
+    refusals = [n for n in walk_no_nested(f.node) if isinstance(n, ast.If) and any(isinstance(x, ast.Raise) for x in n.body) and tname in [x.id for x in ast.walk(n.test) if isinstance(x, ast.Name)]]
+    ctx.check(bool(refusals), 'SetStrictRanges#table-refusal', 'clip with tight=False raises', 'clip given with tight=False is no longer refused', f, refusals[0] if refusals else f.node)
     g = ctx.func(AS + '._boundsconstraints')
     sn = selfname_of(g)
-    b = T.Builder()
-    bc = None
-    for s in g.node.body:
-        if isinstance(s, ast.Assign) and isinstance(s.targets[0], ast.Name):
-            v = T.simp(b.t(s.value))
-            if v[0] == 'call' and T.show(v[1]) in ('bcon', 'boundsconstrain'):
-                bc = (s, v)
-            if s.targets[0].id in ('min', 'max'):
-                b.exec_stmt(s)
-    ctx.need(bc is not None, '_boundsconstraints no longer builds the constraint with boundsconstrain')
     S = ('name', sn)
-    ctx.check(bc[1][2][:2] == (('attr', S, '_strictMin'), ('attr', S, '_strictMax')) and dict(bc[1][3]).get('clip') == ('name', 'clip')
-              and dict(bc[1][3]).get('symbolic') == ('name', 'symbolic'), '_boundsconstraints#args',
-              'boundsconstrain(_strictMin, _strictMax, symbolic=symbolic, clip=clip)', '_boundsconstraints calls %s' % T.show(bc[1]), g, bc[0])
-    ident = [s for s in g.node.body if isinstance(s, ast.If) and any(isinstance(x, ast.Return) and isinstance(x.value, ast.Lambda) for x in s.body)]
-    ok_id = bool(ident) and ''.join(unparse(ident[0].test).split()) == 'not%s._useStrictRangeorignore' % sn
-    ctx.check(ok_id, '_boundsconstraints#identity', 'identity only when ranges are off or no keyword was given', 'identity bounds constraint returned under `%s`' % (unparse(ident[0].test) if ident else None), g, ident[0] if ident else g.node)
+    rts = return_terms(g.node)
+    ctx.need(rts, '_boundsconstraints: no return')
+    ctx.stats['paths_enumerated'] += len(rts)
+    n_bc = n_id = 0
+    for p, term, b, conds in rts:
+        if term[0] == 'lambda':
+            n_id += 1
+            is_identity = len(term[1]) == 1 and term[3] == ('name', term[1][0])
+            # the branch that hands out the identity: ranges off, or no keyword given (symbolic still None after the defaults)
+            last = [(c, tr) for c, tr, _ in conds if tr][-1:] if conds else []
+            parts = []
+            for c, tr in last:
+                parts = list(c[1:]) if c[0] == 'or' else [c]
+            off = ('not', ('attr', S, '_useStrictRange')) in parts
+            nokw = any(q[0] == 'cmp' and q[1] == 'is' and q[3] == ('const', None) for q in parts)
+            ctx.check(is_identity and off and nokw and len(parts) == 2, '_boundsconstraints#identity', 'identity only when ranges are off or no keyword was given',
+                      'identity bounds constraint returned under `%s`' % (T.show(last[0][0])[:80] if last else None), g, p.exit_node)
+        else:
+            n_bc += 1
+            good = term[0] == 'call' and T.show(term[1]) in ('bcon', 'boundsconstrain') and term[2][:2] == (('attr', S, '_strictMin'), ('attr', S, '_strictMax')) \
+                and 'clip' in dict(term[3]) and 'symbolic' in dict(term[3])
+            ctx.check(good, '_boundsconstraints#args', 'boundsconstrain(_strictMin, _strictMax, symbolic=symbolic, clip=clip)', '_boundsconstraints returns %s' % T.show(term)[:120], g, p.exit_node)
+    ctx.need(n_bc >= 1 and n_id >= 1, '_boundsconstraints: expected an identity path and a boundsconstrain path (found %d / %d)' % (n_id, n_bc))
     h = ctx.func('mystic.constraints:boundsconstrain')
     ns = [s for s in walk_no_nested(h.node) if isinstance(s, ast.If) and ''.join(unparse(s.test).split()) == 'notsymbolic']
     ctx.need(ns, 'boundsconstrain: non-symbolic branch not found')
